@@ -1593,7 +1593,9 @@ fn is_expired_entry_ao(
 ) -> bool {
     if let Some(ts) = entry.last_accessed() {
         if let Some(va) = valid_after {
-            if ts < *va {
+            // `invalidate_all` invalidates the entries *written* before it was called,
+            // no matter when they were last read.
+            if entry.last_modified().unwrap_or(ts) < *va {
                 return true;
             }
         }
